@@ -83,7 +83,14 @@ func (g *guard) onLog(e *simapi.LogEntry) {
 		return
 	}
 	if e.Changed || e.Removed {
-		g.s.Violate("C02/write-committed-on-foreign-object/"+g.what[e.Key], fmt.Sprintf("%s committed %s on %s %s/%s, which another owner controls (%s)", e.Actor, e.Verb, e.Key.Kind, e.Key.NS, e.Key.Name, g.what[e.Key]))
+		sig := "C02/write-committed-on-foreign-object/" + g.what[e.Key]
+		if g.what[e.Key] == "replaced-composed-resource" {
+			// placed while reconciles were in flight: which request went through matters
+			sig += "/" + e.Verb
+		}
+		g.s.Violate(sig, fmt.Sprintf("%s committed %s on %s %s/%s, which another owner controls (%s)", e.Actor, e.Verb, e.Key.Kind, e.Key.NS, e.Key.Name, g.what[e.Key]))
+		// one report per object: what happens to it afterwards is a consequence
+		delete(g.placed, e.Key)
 	}
 }
 
@@ -127,9 +134,33 @@ func stranger(w *xrworld.W) *simapi.Client {
 func runXR(s *sim.Sim, res *runner.Result) {
 	var g *guard
 	var blocked []string
+	var sc *simapi.Client
 	xrworld.Run(s, res, xrworld.Hooks{
+		Opts:   func(tp *sim.Tape) xrworld.Opts { lag := tp.Next(2) == 1; return xrworld.Opts{LagComposed: lag, LagManual: lag && tp.Next(2) == 1} },
 		Params: xrworld.DrawParams{Conn: true, MaxXR: 1},
-		Faults: []sim.Outcome{sim.ErrBefore, sim.ErrAfter, sim.Conflict, sim.CrashBefore, sim.CrashAfter},
+		Faults: []sim.Outcome{sim.ErrBefore, sim.ErrAfter, sim.Conflict, sim.CrashBefore, sim.CrashAfter, sim.Stale},
+		Env: func(w *xrworld.W, wl *xrworld.Workload) []sim.Action {
+			// a composed resource is deleted out of band and another owner creates
+			// (and controls) an object of the same name before the XR notices
+			cs := w.ComposedObjects()
+			if len(cs) == 0 || sc == nil {
+				return nil
+			}
+			return []sim.Action{{Key: "a stranger replaces a composed resource under its name", Weight: 2, Run: func() {
+				c := cs[s.Tape.Next(len(cs))]
+				if _, ok := g.placed[c.Key]; ok || len(c.Obj.GetFinalizers()) > 0 {
+					return
+				}
+				ctx := context.Background()
+				if w.Direct.Delete(ctx, c.Obj.DeepCopy()) != nil || w.Store.Peek(c.Key) != nil {
+					return
+				}
+				u := mk(c.Obj.GetAPIVersion(), c.Obj.GetKind(), "", c.Obj.GetName(), map[string]any{"spec": map[string]any{"tag": "theirs"}})
+				if sc.Create(ctx, u) == nil {
+					g.place(c.Key, "replaced-composed-resource")
+				}
+			}}}
+		},
 		Setup: func(w *xrworld.W, wl *xrworld.Workload) error {
 			g = newGuard(s, w.Store)
 			// the pipeline chooses metadata.name itself so that the stranger can be there first
@@ -148,7 +179,7 @@ func runXR(s *sim.Sim, res *runner.Result) {
 		},
 		Started: func(w *xrworld.W, wl *xrworld.Workload) {
 			ctx := context.Background()
-			sc := stranger(w)
+			sc = stranger(w)
 			x := wl.XRs[0]
 			// (1) the name a desired resource asks for
 			if wl.Pipeline && len(x.Items) > 0 {
